@@ -90,10 +90,30 @@ def gen_params(rng, cls: str, force: Optional[dict] = None) -> dict:
                  freq=pick(rng, 1.3e9, 2.998e9, 0.0))
         if rng.random() < 0.4:
             p["phase"] = float(rng.uniform(-80.0, 80.0))
-    elif cls in ("Marker", "BPM", "Screen", "Aperture"):
+    elif cls in ("Marker",):
         pass
+    elif cls == "BPM":
+        p.update(active=bool(rng.random() < 0.5))
+    elif cls == "Screen":
+        p.update(active=bool(rng.random() < 0.5), blocking=False)
+    elif cls == "Aperture":
+        p.update(xmax=pick(rng, float("inf"), 1e-3, 5e-4, 2e-3), ymax=pick(rng, float("inf"), 1e-3, 5e-4, 2e-3),
+                 shape=pick(rng, "rectangular", "elliptical"), active=bool(rng.random() < 0.7))
+    elif cls == "SpaceChargeKick":
+        p.update(L=float(pick(rng, 0.1, 0.5, 1.0)), grid=8)
+    elif cls == "CustomTransferMap":
+        q = gen_params(rng, "Quadrupole")
+        p.update(L=q["L"], inner=q, E0=1e8)
+    elif cls == "TransverseDeflectingCavity":
+        p.update(L=length(rng, allow_zero=False), V=signed(rng, 1e4, 5e6, 0.3), phase=float(rng.uniform(-180, 180)),
+                 freq=pick(rng, 1.3e9, 2.998e9), mx=signed(rng, 1e-5, 1e-3, 0.6), my=signed(rng, 1e-5, 1e-3, 0.6),
+                 tilt=signed(rng, 1e-3, 1.5, 0.5), num_steps=int(pick(rng, 1, 2, 5)))
     else:
         raise ValueError(cls)
+    if cls in ("Drift", "Quadrupole", "Dipole", "RBend") and "method" not in p:
+        p["method"] = "cheetah"
+    if cls == "Quadrupole":
+        p.setdefault("num_steps", 1)
     if force:
         p.update(force)
     return p
@@ -110,11 +130,13 @@ def build(p: dict, dtype=F64, name: Optional[str] = None, **extra):
     if name is not None:
         kw["name"] = name
     tt = lambda x: torch.tensor(x, dtype=dtype)  # noqa: E731
+    if c in ("Drift", "Quadrupole", "Dipole", "RBend") and p.get("method", "cheetah") != "cheetah":
+        extra = dict(extra, tracking_method=p["method"])
     if c == "Drift":
         return cheetah.Drift(length=tt(p["L"]), **kw, **extra)
     if c == "Quadrupole":
         return cheetah.Quadrupole(length=tt(p["L"]), k1=tt(p["k1"]), misalignment=tt([p["mx"], p["my"]]),
-                                  tilt=tt(p["tilt"]), **kw, **extra)
+                                  tilt=tt(p["tilt"]), num_steps=p.get("num_steps", 1), **kw, **extra)
     if c == "Dipole":
         return cheetah.Dipole(length=tt(p["L"]), angle=tt(p["angle"]), k1=tt(p["k1"]), dipole_e1=tt(p["e1"]),
                               dipole_e2=tt(p["e2"]), tilt=tt(p["tilt"]), gap=tt(p["gap"]),
@@ -136,12 +158,28 @@ def build(p: dict, dtype=F64, name: Optional[str] = None, **extra):
                               **kw, **extra)
     if c == "Marker":
         return cheetah.Marker(**({"name": name} if name else {}))
+    if c == "Segment":
+        return cheetah.Segment([build(q, dtype=dtype, name=q.get("name")) for q in p["elements"]],
+                               **({"name": name} if name else {}))
     if c == "BPM":
-        return cheetah.BPM(**({"name": name} if name else {}), **extra)
+        return cheetah.BPM(is_active=p.get("active", False), **({"name": name} if name else {}), **extra)
     if c == "Screen":
-        return cheetah.Screen(**kw, **extra)
+        return cheetah.Screen(resolution=(40, 30), pixel_size=tt([1e-4, 1e-4]), is_active=p.get("active", False),
+                              is_blocking=p.get("blocking", False), **kw, **extra)
     if c == "Aperture":
-        return cheetah.Aperture(**kw, **extra)
+        return cheetah.Aperture(x_max=tt(p.get("xmax", float("inf"))), y_max=tt(p.get("ymax", float("inf"))),
+                                shape=p.get("shape", "rectangular"), is_active=p.get("active", True), **kw, **extra)
+    if c == "SpaceChargeKick":
+        g = p.get("grid", 8)
+        return cheetah.SpaceChargeKick(effect_length=tt(p["L"]), num_grid_points_x=g, num_grid_points_y=g,
+                                       num_grid_points_tau=g, **kw, **extra)
+    if c == "CustomTransferMap":
+        tm = build(p["inner"], dtype=dtype).transfer_map(torch.tensor(p["E0"], dtype=dtype))
+        return cheetah.CustomTransferMap(tm, length=tt(p["L"]), **kw, **extra)
+    if c == "TransverseDeflectingCavity":
+        return cheetah.TransverseDeflectingCavity(length=tt(p["L"]), voltage=tt(p["V"]), phase=tt(p["phase"]),
+                                                  frequency=tt(p["freq"]), misalignment=tt([p["mx"], p["my"]]),
+                                                  tilt=tt(p["tilt"]), num_steps=p.get("num_steps", 1), **kw, **extra)
     raise ValueError(c)
 
 
